@@ -107,6 +107,11 @@ def main():
         for i, (F, temp) in enumerate(params[: 2 if big and quick else len(params)]):
             ktasks.append({"op": "kernel", "A": A, "P": P, "states": states.get(c, []), "seed": ck.seed * 101 + i, "F": F, "temp": temp, "cfg": c,
                            "counts": i % 2 == 0, "n_reads": 4 + i % 3})
+        # a SNV no read covers, reads without any base call, unequal read counts; a heated chain with inbreeding
+        if not (big and quick):
+            for i, (F, temp) in enumerate([(0.3, 0.5)] if quick else [(0.3, 0.5), (0.0, 0.25), (0.6, 1.0)]):
+                ktasks.append({"op": "kernel", "A": A, "P": P, "states": states.get(c, []), "seed": ck.seed * 101 + 50 + i, "F": F, "temp": temp, "cfg": c,
+                               "counts": True, "n_reads": 5 + i, "sparse": True})
     ktasks.sort(key=lambda t: -len(t["states"]) * prod(t["A"]))
     res = pool.map_tasks("impl.c01", ktasks, mode="py")
     maxres = 0.0
